@@ -89,6 +89,7 @@ func init() {
 		// queuedExecute
 		qd := x.Func("http", "Service", "queuedExecute")
 		writeIdx, waitIdx, nWrites := -1, -1, 0
+		timeoutBranchQueueCalls, timeoutBranchFound := 0, false
 		if qd != nil {
 			for i, st := range qd.Body.List {
 				if len(x.Calls(st, "Write")) > 0 {
@@ -105,6 +106,17 @@ func init() {
 					ast.Inspect(is.Body, func(m ast.Node) bool {
 						if cc, ok := m.(*ast.CommClause); ok && cc.Comm != nil && x.Src(cc.Comm) == "<-fc" {
 							waitIdx = i
+						} else if ok && cc.Comm != nil && strings.Contains(x.Src(cc.Comm), "NewTimer") {
+							// the wait-timeout branch (408): does it touch the queue at all?
+							timeoutBranchFound = true
+							for _, b := range cc.Body {
+								ast.Inspect(b, func(k ast.Node) bool {
+									if c, ok := k.(*ast.CallExpr); ok && strings.Contains(x.Src(c.Fun), "stmtQueue") {
+										timeoutBranchQueueCalls++
+									}
+									return true
+								})
+							}
 						}
 						return true
 					})
@@ -115,6 +127,8 @@ func init() {
 		x.DefBool("queuedExecuteFound", qd != nil)
 		x.Raw("def stmtQueueWrites : Nat := " + itoa(nWrites))
 		x.DefBool("waitOnFlushChanAfterWrite", writeIdx >= 0 && waitIdx > writeIdx)
+		x.DefBool("waitTimeoutBranchFound", timeoutBranchFound)
+		x.Raw("def waitTimeoutBranchQueueCalls : Nat := " + itoa(timeoutBranchQueueCalls))
 
 		// C31: the other BeginWithRetry call site (Backup)
 		x.Comment("store/store.go: every BeginWithRetry call site: (owner, timeout ns, retry ns)")
